@@ -229,7 +229,7 @@ def run(ctx):
         reqs.append((f"example {extra_name} {nv.enc_ints(extra_args)}", posted_dump(from_problem(extra_p)), extra_name, extra_args))
     # parameterised models on random parameters (asymmetric TSP matrices, knapsacks): the constructor's arrays vs the Lean model,
     # and the optimum of the real solver vs brute force
-    for _ in range(6 if not thorough else 60):
+    for _ in range(6 * nv.boost("examples") if not thorough else 60):
         n = rng.randint(3, 5)
         rows = [[0 if i == j else rng.randint(1, 20) for j in range(n)] for i in range(n)]
         tp = TSPProblem(rows)
@@ -455,7 +455,7 @@ def run(ctx):
                          "detail": f"the model's own consistency algorithm enumerates {len(sets[0])} rulers, plain bound consistency {len(sets[1])}; lost: {lost}; invalid: {bad_r[:2]}"})
     # the Golomb model's own consistency algorithm against its Lean model golombPrune (C20_golomb_prune_sound is about that model)
     import golomb_corr
-    gc, gv = golomb_corr.run(report, rng, 120 if not thorough else 3000)
+    gc, gv = golomb_corr.run(report, rng, 120 * nv.boost("examples") if not thorough else 3000)
     corr += gc
     viol += gv
     w, v, cap = [4, 5, 6, 7], [3, 2, 4, 5], 8
